@@ -29,5 +29,6 @@ package fasta
 //@   property C01
 //@   requires w != nil && w.w != nil && w.Width > 0 && s != nil
 //@   ensures [bytes] n == emitted(w.w) - old(emitted(w.w))
+//@   assigns emitted(w.w), fresh
 //@   loop 1 invariant w != nil && w.w != nil && w.w == old(w.w) && w.Width > 0 && i >= 0 && n == emitted(w.w) - old(emitted(w.w))
 //@   loop 1 invariant fresh(prefix) && fresh(header)
